@@ -1,3 +1,17 @@
 import HapVerif.Model.C03
+import HapVerif.Generated.Facts
 namespace HapVerif.C03
+
+/-- regenerated from the Go source: the constants and conditions the model transcribes -/
+theorem facts_c03 :
+    Facts.c03FindServicePortConds =
+      ["port.Name==servicePort||port.TargetPort.String()==servicePort", "err!=nil", "port.Port==svcPort"] ∧
+    Facts.c03MatchPortConds = ["epPort.Protocol!=api.ProtocolTCP"] ∧
+    Facts.c03PathTypeOrder = "exact,prefix,begin,regex" ∧
+    Facts.c03InitialWeight = "1" ∧
+    Facts.c03AlwaysAddHTTPS = "false" ∧
+    Facts.c03BackendIDSeps = ["\"_\"", "\"_\""] ∧
+    Facts.c03SortIngressConds = ["i1.CreationTimestamp!=i2.CreationTimestamp"] ∧
+    Facts.c03HasTLS = ["h.TLS.UseDefaultCrt||h.TLS.TLSHash!=\"\""] := by decide
+
 end HapVerif.C03
